@@ -473,6 +473,14 @@ pub fn gen_case(r: &mut Rng) -> Case {
             }
         }
         let cross = fault >= 13 && fault < 19 && sold >= 2;
+        // a sell-to-cover filled in lots, two of them with the same figures (10 + 10 + 5)
+        let twin_parts = fault >= 19 && fault < 29 && sold >= 3;
+        if twin_parts {
+            let k = 1 + r.below((sold as u64 - 1) / 2) as u32;
+            parts = if sold == 2 * k { vec![k, k] } else { vec![k, k, sold - 2 * k] };
+            scen.push("twinparts".into());
+        }
+        let mut first_part: Option<(i64, Decimal, Option<Decimal>, Option<Decimal>)> = None;
         let np = parts.len();
         for (pi, p) in parts.iter().enumerate() {
             let mut t_off = off;
@@ -489,6 +497,14 @@ pub fn gen_case(r: &mut Rng) -> Case {
             let commission = if r.chance(80) { Some(Decimal::new(r.range(0, 2500), 2)) } else { None };
             // the recorded pre-2023 layout always prints a FEE (or COMMISSION) on the description line
             let fee = if r.chance(80) || (pre_layout && commission.is_none()) { Some(Decimal::new(r.range(1, 60), 2)) } else { None };
+            let (t_off, td, price, commission, fee) = match (&first_part, twin_parts && pi == 1) {
+                (Some(f), true) => (f.0, acq + Duration::days(f.0), f.1, f.2, f.3),
+                _ => (t_off, td, price, commission, fee),
+            };
+            let _ = t_off;
+            if pi == 0 {
+                first_part = Some((t_off, price, commission, fee));
+            }
             let tsec = if cross && pi == np - 1 { if sec == secs[0] { secs[1].to_string() } else { secs[0].to_string() } } else { sec.clone() };
             trades.push(GTrade { sec: tsec, trade: td, settle: td + Duration::days(2), sell: true, price, shares: *p, commission, fee });
         }
